@@ -14,7 +14,7 @@ import os, re, subprocess, time, shutil, json
 ROOT = os.path.dirname(os.path.dirname(os.path.abspath(__file__)))
 REPO = os.environ.get("VX_REPO", "/repo")
 SRC = os.path.join(REPO, "entrait_macros", "src")
-BUILD = os.path.join(ROOT, "build") if not os.environ.get("VX_SCRATCH_OUT") else os.path.join(ROOT, "build", "scratch")
+BUILD = os.path.join(ROOT, "build") if not os.environ.get("VX_SCRATCH_OUT") else os.path.join(ROOT, "build", "scratch" + ("-" + os.environ["VX_SCRATCH_ID"] if os.environ.get("VX_SCRATCH_ID") else ""))
 ASSEMBLE = os.path.join(ROOT, "build", "assemble", "debug", "vx-assemble")
 ENV = dict(os.environ, CARGO_NET_OFFLINE="true")
 
